@@ -78,7 +78,60 @@ def _configs(ctx):
     return cfgs
 
 
+_CHILD = r"""
+import hashlib, sys
+import jax, numpy as np, equinox as eqx
+from jax import random as jr
+from lerax.algorithm import PPO, DQN
+from lerax.env.classic_control import CartPole
+from lerax.policy import MLPActorCriticPolicy, MLPQPolicy
+which = sys.argv[1]
+env = CartPole()
+if which == "PPO":
+    algo = PPO(num_envs=2, num_steps=8, num_epochs=1, num_batches=2)
+    policy = MLPActorCriticPolicy(env, feature_size=4, feature_width=8, feature_depth=1, value_width=8, value_depth=1,
+                                  action_width=8, action_depth=1, key=jr.key(3))
+    total = 32
+else:
+    algo = DQN(buffer_size=64, learning_starts=8, num_envs=1, num_steps=4, batch_size=4)
+    policy = MLPQPolicy(env, width_size=8, depth=1, key=jr.key(3))
+    total = 16
+out = algo.learn(env, policy, total, key=jr.key(11))
+h = hashlib.sha1()
+for leaf in jax.tree.leaves(eqx.filter(out, eqx.is_array)):
+    h.update(np.asarray(leaf).tobytes())
+print("DIGEST", h.hexdigest())
+"""
+
+
+def check_across_processes(ctx):
+    """'Training is a function of (environment, initial policy, hyper-parameters, key)': the same run in
+    separate interpreter processes (different string-hash salts, as for any two runs of a script) yields
+    bit-identical parameters."""
+    import subprocess
+    import sys
+    for which in ctx.budget(["PPO"], ["PPO", "DQN"]):
+        digests = {}
+        for salt in ("1", "2", "random"):
+            env = dict(os.environ, PYTHONHASHSEED=salt)
+            p = subprocess.run([sys.executable, "-c", _CHILD, which], env=env, capture_output=True, text=True, timeout=900)
+            lines = [ln for ln in p.stdout.splitlines() if ln.startswith("DIGEST ")]
+            if p.returncode != 0 or not lines:
+                ctx.note(f"cross-process run ({which}, PYTHONHASHSEED={salt}) did not complete: rc={p.returncode}")
+                digests = None
+                break
+            digests[salt] = lines[-1].split()[1]
+        if digests is None:
+            continue
+        case = {"kind": "across-processes", "algo": which, "digests_by_PYTHONHASHSEED": digests}
+        ctx.case(case, True)
+        ctx.count("across-processes:" + which)
+        if len(set(digests.values())) != 1:
+            ctx.phi_fail("repeat_same_inputs_bit_identical", case, key="c11:across-processes")
+
+
 def run(ctx):
+    check_across_processes(ctx)
     work = os.path.join(VERIF, ".work", f"c11_{os.getpid()}")
     os.makedirs(work, exist_ok=True)
     try:
@@ -115,6 +168,10 @@ def run(ctx):
                 }
                 cbs["observer_callback_list"] = [LoggingCallback(RecordingBackend(), name="verif2"),
                                                  ProgressBarCallback()]
+                # a progress bar that was told the run's total (what a user passes to get a percentage)
+                cbs["observer_progress_bar_with_total"] = ProgressBarCallback(total_timesteps=total)
+                cbs["observer_callback_list_with_total"] = [ProgressBarCallback(total_timesteps=total),
+                                                            LoggingCallback(RecordingBackend(), name="verif4")]
                 if ctx.quick:
                     cbs.pop("observer_logging_tensorboard")
                 if envname.startswith("GymToLerax"):
